@@ -2,6 +2,7 @@
 mod cases;
 mod obs;
 mod replay;
+mod sw;
 mod ureplay;
 mod uworld;
 mod world;
@@ -123,10 +124,11 @@ fn run_all<P: Send + Sync + 'static>(paths: Vec<replay::PathRec<P>>, run: Runner
     let total = results.len();
     let conform = results.iter().filter(|r| r.conform).count();
     let hung = results.iter().filter(|r| r.hung).count();
+    let inconclusive = results.iter().filter(|r| r.inconclusive).count();
     let steps: usize = results.iter().map(|r| r.steps).sum();
     let divs: Vec<_> = results.iter().filter(|r| !r.conform).take(20).collect();
     let summary = json!({
-        "paths": total, "conform": conform, "nonconform": total - conform, "hung": hung, "steps": steps,
+        "paths": total, "conform": conform, "nonconform": total - conform, "hung": hung, "steps": steps, "inconclusive": inconclusive,
         "wall_s": t0.elapsed().as_secs_f64(),
         "first_divergences": divs,
         "nonconform_ids": results.iter().filter(|r| !r.conform).map(|r| r.id).collect::<Vec<_>>(),
@@ -157,6 +159,12 @@ fn cmd_replay(args: &[String]) {
         serde_json::from_str(&f.lines().next().expect("header").unwrap()).expect("header json")
     };
     match head["kind"].as_str().unwrap_or("managed") {
+        "sync" => {
+            let (head, paths) = load_paths::<sw::SwPost>(file, only);
+            let cfg: sw::SwCfg = serde_json::from_value(head["cfg"].clone()).expect("cfg");
+            let run: Runner<sw::SwPost> = Arc::new(move |p, obs| sw::run_path(&cfg, p, obs));
+            run_all(paths, run, args)
+        }
         "unmanaged" => {
             let (head, paths) = load_paths::<ureplay::UPost>(file, only);
             let cfg: uworld::UCfg = serde_json::from_value(head["cfg"].clone()).expect("cfg");
